@@ -19,16 +19,22 @@ ID = 'C09'
 LEVEL = 'exploration'
 RULE = ('exhaustive: every chain of 1..N conditions (N=4 quick, 5 thorough) x each condition in '
         '{probe callable, plain value, logging-mapping value, probe() expression} x {true,false} or '
-        'undefined name x with/without else; values, attribute spelling, tag syntax, enclosing tag '
-        '(none, in, the conditional written twice, with, let, if, try) and the body re-references '
-        '(11 insertion forms nested in 0..3 of 7 wrapper tags) are drawn from ctx.rng per case; '
+        'undefined name x else in {absent, <dtml-else>, <dtml-else NAME> (the documented long form; '
+        'only when the if tests a name)}; per case ctx.rng draws the values, attribute spelling, tag '
+        'syntax, end tag with/without the name, literal text around the conditional or none, the '
+        'enclosing tag (none, in, the conditional written twice, with, let, if, try), the type of every '
+        'body (text+references, text only, completely empty, blanks only, references only) and the '
+        're-references (11 insertion forms nested in 0..3 of 7 wrapper tags); exhaustive body types: '
+        'chains of 1..3 (thorough 1..4) conditions x every body in {empty, blank, text, '
+        'text+references} in every position x else absent or one of the four; exhaustive repeated '
+        'names: chains of 2..3 (thorough 2..4) positions over two names / expressions x every binding; '
         'exhaustive body shapes: every form x every wrapper stack of depth 0..2 (quick) / 0..3 '
         '(thorough) x every kind of defined named condition x true/false; seeded: length-5 chains '
         '(quick), chains with functions, bound methods, sub-templates, _[name] expressions, repeated '
-        'names and later conditions armed to raise; unless (with its if twin) and call over every kind '
-        'x every value x every enclosing tag. distinct = distinct full case descriptions; non-trivial '
-        '= at least one condition whose evaluation is observable (event or undefined name) or a '
-        'rendered body re-reference')
+        'names and later conditions armed to raise; unless (with its if twin, all body types) and call '
+        'over every kind x every value x every enclosing tag. distinct = distinct full case '
+        'descriptions; non-trivial = at least one condition whose evaluation is observable (event or '
+        'undefined name) or a rendered body re-reference')
 ASSUMPTIONS = [
     'body references are generated only to names the conditional has evaluated and found defined at or '
     'before the branch (that is what the statement speaks about); undefined names are never referenced',
@@ -38,6 +44,9 @@ ASSUMPTIONS = [
     'a named condition occurring twice in one chain is expected to be evaluated once ("at most once per '
     'conditional") and to have the same truth both times',
     'dtml-call of an undefined name: only "emits nothing" is demanded when it returns; raising is not judged',
+    'a blank body is blanks and tabs without a newline: blanks + newline right after a block tag are '
+    'skipped by the parser by design (skip_eol), which is not this property',
+    'the deprecated standalone <dtml-else name>...</dtml-else> block (an unless synonym) is not exercised',
     'every rendering of a conditional (each dtml-in iteration, each of two copies side by side) is a new '
     'conditional: a reached named condition is evaluated again, nothing is carried over',
 ]
@@ -48,6 +57,11 @@ SEEDED_N5 = {'quick': 8000, 'thorough': 0}          # quick samples the length-5
 SEEDED_EXT = {'quick': 12000, 'thorough': 120000}
 UNLESS_SHAPES = {'quick': 6, 'thorough': 40}
 SHAPE_DEPTH = {'quick': 2, 'thorough': 3}
+GRID_N = {'quick': 3, 'thorough': 4}
+GRID_OPTS = (('nc', True), ('nc', False), ('ex', True), ('ex', False), ('un', None))
+GRID_OPTS_LONG = (('nc', True), ('nc', False), ('un', None))       # length 4 (thorough)
+DUP_N = {'quick': 3, 'thorough': 4}
+DUP_BIND = (('nc', True), ('nc', False), ('nm', True), ('nm', False), ('un', None))
 
 # the options of one condition in the exhaustive family
 OPTS = [('nc', True), ('nc', False), ('np', True), ('np', False), ('nm', True), ('nm', False),
@@ -69,24 +83,54 @@ def make_cond(rng, kind, truth, name):
     return c
 
 
-def make_refs(rng, names):
+def make_refs(rng, names, atleast=0):
     if not names:
         return []
     refs = []
-    for _ in range(rng.choice((0, 1, 1, 2))):
+    for _ in range(max(atleast, rng.choice((0, 1, 1, 2)))):
         depth = rng.randrange(4)
         refs.append([rng.choice(names), rng.choice(U.FORMS),
                      [rng.choice(U.WRAPPERS) for _ in range(depth)]])
     return refs
 
 
-def finish_case(rng, fam, conds, has_else, outers=U.OUTERS):
+# seeded body types: mostly text + references, but every degenerate shape is frequent
+BTYPE_DRAW = ('full',) * 11 + ('empty',) * 4 + ('ws',) * 2 + ('refsonly',) * 3
+# the body-type grid spells text-only and text+references apart
+GRID_BTYPES = ('empty', 'ws', 'text', 'refs')
+
+
+def make_body(rng, names, btype):
+    """-> (stored body type, references) for a drawn / enumerated body type."""
+    if btype in ('empty', 'ws'):
+        return btype, []
+    if btype == 'text':
+        return 'full', []
+    if btype == 'refs':
+        return 'full', make_refs(rng, names, atleast=1)
+    if btype == 'refsonly':
+        return 'refsonly', make_refs(rng, names, atleast=1)
+    return 'full', make_refs(rng, names)
+
+
+def finish_case(rng, fam, conds, has_else, outers=U.OUTERS, btypes=None, etype=None):
+    """has_else: False | True ('bare' <dtml-else>) | 'named' (<dtml-else NAME>, the long form)."""
+    n = len(conds)
     case = {'fam': fam, 'style': rng.choice(('dtml', 'dtml', 'sgml')),
-            'outer': rng.choice(outers), 'conds': conds,
-            'bodies': [make_refs(rng, U.referable(conds, i)) for i in range(len(conds))],
-            'else': None}
+            'outer': rng.choice(outers), 'conds': conds, 'bodies': [], 'btypes': [], 'else': None}
+    for i in range(n):
+        bt, refs = make_body(rng, U.referable(conds, i), btypes[i] if btypes else rng.choice(BTYPE_DRAW))
+        case['btypes'].append(bt)
+        case['bodies'].append(refs)
     if has_else:
-        case['else'] = make_refs(rng, U.referable(conds, len(conds)))
+        case['etype'], case['else'] = make_body(rng, U.referable(conds, n),
+                                                etype or rng.choice(BTYPE_DRAW))
+        if has_else == 'named':
+            case['ename'] = True
+    if conds[0]['k'] in U.NAMED and rng.random() < 0.15:
+        case['endname'] = True
+    if rng.random() < 0.15:
+        case['bare'] = True
     return case
 
 
@@ -102,7 +146,10 @@ def gen_ext(rng, maxn):
             kind = rng.choice(EXT_KINDS)
             c = make_cond(rng, kind, rng.random() < 0.4, 'c%d' % (i + 1))
         conds.append(c)
-    case = finish_case(rng, 'chain', conds, rng.random() < 0.5)
+    has_else = rng.random() < 0.5
+    if has_else and conds[0]['k'] in U.NAMED and rng.random() < 0.4:
+        has_else = 'named'
+    case = finish_case(rng, 'chain', conds, has_else)
     case['boom'] = rng.random() < 0.4
     return case
 
@@ -178,6 +225,35 @@ def run_case(ctx, case, sample=False):
             ctx.count('chain:undefined name passed over as false')
     if fam == 'unless':
         ctx.table('unless', 'body rendered' if chosen == 0 else 'body skipped')
+        ctx.table('unless body type x rendered', '%s/%s' % (U.btype_of(case, 0), chosen == 0))
+    if fam == 'chain':
+        last = len(conds) - 1
+        for i in range(len(conds)):
+            bt = U.btype_of(case, i)
+            if bt == 'full' and not case['bodies'][i]:
+                bt = 'text'
+            ctx.table('body type x position', '%s/%s' % (bt, 'first' if i == 0 else
+                                                         ('last' if i == last else 'middle')))
+            if i == chosen:
+                ctx.table('chosen body type', bt)
+                if bt in ('empty', 'ws') and (i < last or case.get('else') is not None):
+                    ctx.count('chain:true branch with an empty / blank body followed by further branches')
+        if case.get('else') is not None:
+            et = U.btype_of(case, 'E')
+            if et == 'full' and not case['else']:
+                et = 'text'
+            ctx.table('else body type', et)
+            ctx.table('else spelling', '%s after %d elif' % ('named' if case.get('ename') else 'bare',
+                                                             min(last, 2)))
+            if chosen == 'E':
+                ctx.table('chosen body type', 'else/' + et)
+        if all(U.btype_of(case, i) == 'empty' for i in range(len(conds))) and \
+                (case.get('else') is None or U.btype_of(case, 'E') == 'empty'):
+            ctx.count('chain:all bodies completely empty')
+        if case.get('endname'):
+            ctx.count('chain:end tag repeats the name')
+        if case.get('bare'):
+            ctx.count('chain:no text around the conditional')
     for name, form, wrappers in rendered_refs:
         ctx.table('rendered reference form', form)
         ctx.table('rendered reference depth', len(wrappers))
@@ -249,6 +325,8 @@ def run_unless(ctx, case, sample=False):
     # the twin's body may only reference the name when it was found defined (same rule)
     out_i = run_case(ctx, twin)
     if isinstance(out_u, str) and isinstance(out_i, str):
+        if U.btype_of(case, 0) != 'full':
+            return                  # no literal marker in the body: the model comparison decides
         ctx.count('unless:complement pairs compared')
         if ('B0[' in out_u) == ('B0[' in out_i):
             ctx.violation('unless and if over the same condition %s the body (%r / %r)'
@@ -310,7 +388,9 @@ def run(ctx, spec):
     idx = 0
     for n in range(1, MAXN[tier] + 1):
         for combo in itertools.product(range(len(OPTS)), repeat=n):
-            for has_else in (False, True):
+            for has_else in (False, True, 'named'):
+                if has_else == 'named' and OPTS[combo[0]][0] not in U.NAMED:
+                    continue                    # the long form repeats a *name*
                 mine = idx % ctx.nshards == ctx.shard
                 idx += 1
                 if not mine:
@@ -320,6 +400,53 @@ def run(ctx, spec):
                 case = finish_case(rng, 'chain', conds, has_else)
                 run_case(ctx, case)
                 ctx.count('chain:exhaustive cases')
+
+    # 1b. exhaustive body types: every chain of 1..G conditions x each condition in GRID_OPTS x each
+    #     body in {completely empty, white space only, text only, text + references} in every
+    #     position x else in {absent, the same four body types}
+    idx = 0
+    for n in range(1, GRID_N[tier] + 1):
+        opts = GRID_OPTS if n <= 3 else GRID_OPTS_LONG
+        for combo in itertools.product(opts, repeat=n):
+            for bts in itertools.product(GRID_BTYPES, repeat=n):
+                for etype in (None,) + GRID_BTYPES:
+                    mine = idx % ctx.nshards == ctx.shard
+                    idx += 1
+                    if not mine:
+                        continue
+                    conds = [make_cond(rng, k, t, 'c%d' % (i + 1)) for i, (k, t) in enumerate(combo)]
+                    has_else = bool(etype)
+                    if has_else and conds[0]['k'] in U.NAMED and rng.random() < 0.5:
+                        has_else = 'named'
+                    run_case(ctx, finish_case(rng, 'chain', conds, has_else, btypes=bts, etype=etype))
+                    ctx.count('chain:exhaustive body-type cases')
+
+    # 1c. exhaustive repeated names: chains of 2..D positions, each position one of the two names
+    #     c1 / c2 or an expression (true / false); every binding of the two names
+    idx = 0
+    for n in range(2, DUP_N[tier] + 1):
+        for b1 in DUP_BIND:
+            for b2 in DUP_BIND:
+                for combo in itertools.product(('c1', 'c2', 'exT', 'exF'), repeat=n):
+                    for has_else in (False, True):
+                        mine = idx % ctx.nshards == ctx.shard
+                        idx += 1
+                        if not mine:
+                            continue
+                        proto = {'c1': make_cond(rng, b1[0], b1[1], 'c1'),
+                                 'c2': make_cond(rng, b2[0], b2[1], 'c2')}
+                        conds = []
+                        for i, what in enumerate(combo):
+                            if what in proto:
+                                c = dict(proto[what])
+                                c['a'] = rng.randrange(6)
+                            else:
+                                c = make_cond(rng, 'ex', what == 'exT', 'e%d' % (i + 1))
+                            conds.append(c)
+                        if has_else and conds[0]['k'] in U.NAMED and rng.random() < 0.3:
+                            has_else = 'named'
+                        run_case(ctx, finish_case(rng, 'chain', conds, has_else))
+                        ctx.count('chain:exhaustive repeated-name cases')
 
     # 2. seeded length-5 chains (quick only; thorough enumerates them)
     for _ in range(SEEDED_N5[tier] // ctx.nshards):
@@ -355,7 +482,8 @@ def run(ctx, spec):
                     continue
                 c = make_cond(rng, kind, truth, 'c1')
                 c['v'] = v
-                case = finish_case(rng, 'unless', [c], False)
+                case = finish_case(rng, 'unless', [c], False,
+                                   btypes=[('refs', 'text', 'empty', 'ws', 'refsonly', 'refs')[rep % 6]])
                 case['outer'] = outer
                 run_unless(ctx, case)
         for outer in (None, 'twice') + U.WRAPPERS:
@@ -407,6 +535,10 @@ def finish(agg):
             'monitor:evaluation events compared',
             'refs:rendered re-reference of an observable name',
             'chain:repeated name reached twice',
+            'chain:true branch with an empty / blank body followed by further branches',
+            'chain:all bodies completely empty',
+            'chain:end tag repeats the name',
+            'chain:no text around the conditional',
             'chain:cases with the later conditions armed to raise',
             'chain:undefined name passed over as false',
             'unless:complement pairs compared', 'call:cases',
@@ -431,8 +563,32 @@ def finish(agg):
     for b in ('body rendered', 'body skipped'):
         if not t.get('unless', {}).get(b):
             inc.append('unless never observed with ' + b)
+    for bt in ('empty', 'ws', 'text', 'full', 'refsonly'):
+        for pos in ('first', 'middle', 'last'):
+            if not t.get('body type x position', {}).get('%s/%s' % (bt, pos)):
+                inc.append('body type never generated: %s in %s position' % (bt, pos))
+        if not t.get('chosen body type', {}).get(bt):
+            inc.append('body type never the chosen branch: ' + bt)
+        if not t.get('else body type', {}).get(bt):
+            inc.append('else body type never generated: ' + bt)
+    for sp in ('bare', 'named'):
+        for k in range(3):
+            if not t.get('else spelling', {}).get('%s after %d elif' % (sp, k)):
+                inc.append('else spelling never generated: %s after %d elif' % (sp, k))
     n = MAXN[agg['tier']]
-    total = sum(2 * len(OPTS) ** k for k in range(1, n + 1))
+    named_first = sum(1 for k, tr in OPTS if k in U.NAMED)
+    total = sum(2 * len(OPTS) ** k + named_first * len(OPTS) ** (k - 1) for k in range(1, n + 1))
+    grid = 0
+    for k in range(1, GRID_N[agg['tier']] + 1):
+        o = len(GRID_OPTS) if k <= 3 else len(GRID_OPTS_LONG)
+        grid += (o * len(GRID_BTYPES)) ** k * (1 + len(GRID_BTYPES))
+    if c.get('chain:exhaustive body-type cases', 0) != grid:
+        inc.append('exhaustive body-type enumeration incomplete: %s of %d'
+                   % (c.get('chain:exhaustive body-type cases'), grid))
+    dups = sum(len(DUP_BIND) ** 2 * 4 ** k * 2 for k in range(2, DUP_N[agg['tier']] + 1))
+    if c.get('chain:exhaustive repeated-name cases', 0) != dups:
+        inc.append('exhaustive repeated-name enumeration incomplete: %s of %d'
+                   % (c.get('chain:exhaustive repeated-name cases'), dups))
     if c.get('chain:exhaustive cases', 0) != total:
         inc.append('exhaustive chain enumeration incomplete: %s of %d'
                    % (c.get('chain:exhaustive cases'), total))
@@ -444,11 +600,15 @@ def finish(agg):
     return {'inconclusive': inc,
             'coverage': {'exhaustive': True,
                          'exhaustive_part': 'chains of 1..%d conditions x %d options per condition x '
-                                            'with/without else = %d cases; body shapes: %d forms x all '
-                                            'wrapper stacks of depth 0..%d x %d named kinds x true/false '
-                                            '= %d cases'
-                                            % (n, len(OPTS), total, len(U.FORMS),
-                                               SHAPE_DEPTH[agg['tier']], len(U.NAMED_DEFINED), shapes),
+                                            'else absent / <dtml-else> / <dtml-else NAME> = %d cases; '
+                                            'body types: chains of 1..%d conditions x every body in '
+                                            '{empty, blank, text, text+references} x else absent or one '
+                                            'of the four = %d cases; repeated names: %d cases; '
+                                            'body shapes: %d forms x all wrapper stacks of depth 0..%d '
+                                            'x %d named kinds x true/false = %d cases'
+                                            % (n, len(OPTS), total, GRID_N[agg['tier']], grid, dups,
+                                               len(U.FORMS), SHAPE_DEPTH[agg['tier']],
+                                               len(U.NAMED_DEFINED), shapes),
                          'explanation': 'values, spelling, enclosing tag and body references of the '
                                         'exhaustive chains are seeded; seeded families are extra'}}
 
